@@ -210,6 +210,11 @@ def snapshotWire (m : Option PSnapshot) (bs : Bytes) : List (String × Json) :=
 def handle (j : Json) : Except String Json := do
   let op ← getStr j "op"
   match op with
+  | "lineno" =>
+    let l ← getInt j "location_line"
+    let n := configuredLineNo l
+    pure (Json.mkObj [("line_no", toJson n), ("function_location_line", toJson functionLocationLine),
+                      ("accepted", Json.bool (inU32 n))])
   | "decode" =>
     -- bytes no encoder of ours produced (unknown fields, repeated singular fields, truncation, bad UTF-8, …)
     let bs := (hexOf j).getD []
@@ -247,8 +252,22 @@ def handle (j : Json) : Except String Json := do
     let c ← parseCfg (← j.getObjVal? "cfg")
     let ops ← (← getArr j "ops").toList.mapM parseOp
     let k := (getNat j "fail_first").toOption.getD 0
+    -- the bytes the real channel serialised for each operation (null: nothing was sent): decoded and re-encoded
+    let hexes := ((j.getObjVal? "hex").toOption.bind (fun h => h.getArr?.toOption)).map (·.toList) |>.getD []
+    let bytesJ := (ops.zip hexes).map (fun (op, h) =>
+      match h.getStr?.toOption with
+      | none => Json.null
+      | some hx =>
+        let bs := ofHex hx
+        match op with
+        | .poll .. =>
+          let d := decPollRequest bs
+          Json.mkObj [("decoded", optJ pollJ d), ("reencoded", optJ (fun m => Json.str (toHex (encRecs (encPollRequest m)))) d)]
+        | .push _ =>
+          let d := decSnapshot bs
+          Json.mkObj [("decoded", optJ snapshotJ d), ("reencoded", optJ (fun m => Json.str (toHex (encRecs (encSnapshot m)))) d)])
     pure (Json.mkObj [("wire", Json.arr ((run c (fun i => decide (i < k)) ⟨none, 0⟩ ops).map wireJ).toArray),
-                      ("expected", mdJ (some (expectedMetadata c)))])
+                      ("expected", mdJ (some (expectedMetadata c))), ("bytes", Json.arr bytesJ.toArray)])
   | "auth_conc" =>
     let c ← parseCfg (← j.getObjVal? "cfg")
     let n ← getNat j "threads"
